@@ -47,6 +47,12 @@ def gen(seed, tier):
                 lines = [g.any_frame(r.choice(pool)) for _ in range(r.randint(0, 3))] + [sentinel(g)]
                 segs.append(seg(0, lines))
         cases.append(("C18-%d" % i, "T", opts_str({"i": "x", "u": -1, "o": "x"}), ";".join(segs)))
+    # rows learned before an interruption survive it "subject to normal expiry": X is 5-6.5 s old (delete-after 7) when the
+    # first sweep of the new connection runs; --update 2 so that a refresh shows the table after that sweep
+    pool = r.sample([x for x in ICAOS if x != SENT], 3)
+    first = seg(1, [g.any_frame(pool[0])])
+    body = [g.f_df11(r.choice(pool[1:])) for _ in range(13)] + [sentinel(g)]
+    cases.append(("C18-e", "T", opts_str({"i": "x", "u": 2, "o": "x", "d": 7}), ";".join([first, "3:", seg(6, body)])))
     return cases
 
 
@@ -56,6 +62,8 @@ def parse(obs):
 
 
 def compare(parts, impl, model):
+    if impl[0] == "harness-error":
+        return []
     if impl[0] != model[0]:
         return ["outcome impl=%s model=%s" % (impl[0], model[0])]
     d = parse(impl[1])
@@ -68,6 +76,8 @@ def compare(parts, impl, model):
 
 
 def oracle(parts, outcome, obs):
+    if outcome == "harness-error":
+        return None     # the scripted peer could not get its port; nothing was observed
     if outcome != "ok":
         return "outcome %s (%s)" % (outcome, obs)
     d = parse(obs)
@@ -76,6 +86,7 @@ def oracle(parts, outcome, obs):
         fails.append("the decoder terminated during the session")
     events = [int(s.split(":", 1)[0]) for s in parts[3].split(";") if s]
     want_conns = sum(1 for e in events if e != 3)
+    events = [0 if e == 6 else e for e in events]
     if int(d["conns"]) != want_conns:
         fails.append("connections accepted %s, expected %d" % (d["conns"], want_conns))
     keys = set(k for k in d["keys"].split(",") if k)
